@@ -756,6 +756,47 @@ func finalOf(mode int, grid bool, w, h int, chunks [][]byte) (lines []string, re
 			events = append(events, e.s)
 		}
 	}
+	// what a frontend reads back for a part of a row (StyledLine sub-ranges around wide characters:
+	// how the row is stored in runs depends on how the text arrived, what is read back must not)
+	{
+		act := 0
+		if snap.OnAlt {
+			act = 1
+		}
+		sc := &snap.Screens[act]
+		rowsDone := 0
+		for y := 0; y < len(sc.Rows) && rowsDone < 4; y++ {
+			var xs []int
+			for x, cl := range sc.Rows[y].Cells {
+				if cl.Cont && len(xs) < 9 {
+					xs = append(xs, x-1, x, x+1)
+				}
+			}
+			if len(xs) == 0 {
+				continue
+			}
+			rowsDone++
+			for _, x := range xs {
+				if x < 0 || x >= sc.W {
+					continue
+				}
+				for _, w := range []int{1, 2, 3, sc.W - x} {
+					if x+w > sc.W {
+						continue
+					}
+					func() {
+						defer func() {
+							if r := recover(); r != nil {
+								lines = append(lines, fmt.Sprintf("SL %d %d %d panic %v", y, x, w, r))
+							}
+						}()
+						l := im.vt.Terminal().StyledLine(x, w, y)
+						lines = append(lines, fmt.Sprintf("SL %d %d %d %s", y, x, w, rowString(expandLine(l, mode == 1))))
+					}()
+				}
+			}
+		}
+	}
 	events = append(events, o.L) // total rows announced through ScrollLines
 	// frontend-visible effect of the geometric notifications: the shadow copy and last values
 	im.checkAPI(&snap, 0, "final", &bad)
